@@ -241,4 +241,67 @@ def check_subquery_scenarios(repo):
         out.append((label, ok,
                     f"check_subquery ({label}): the returned table's tree is {names} (documented Filter' >> Mutate' >> SubqueryMarker >> the original Alias), "
                     f"copies fresh: {fresh}, input tree untouched: {untouched}, re-test on the rebuilt verb: {bool(test_calls and test_calls[0][1])}"))  # fmt: skip
+
+    def run(new_tbl, child_tbl, second, **kw):
+        test_calls = []
+
+        def make_test_table(node, _tc=test_calls):
+            t, calls = table(node, [second])
+            _tc.append((t, calls))
+            return t
+
+        p.import_overrides["Table"] = Native(make_test_table, "Table")
+        try:
+            return ("value", p.call(f, [new_tbl, child_tbl], kw)), test_calls
+        except PyRaise as e:
+            return ("raise", e.name), test_calls
+        finally:
+            p.import_overrides.pop("Table", None)
+
+    # ---- the alias search stops at a Join / SubqueryMarker: an alias below one cannot take the subquery (it would enclose one
+    # input of the join only / sit inside an existing subquery)
+    for stop in ("Join", "SubqueryMarker"):
+        leaf, alias, mid, top = build(True)
+        other = p.call(venv["StubLeaf"], ["u", ["z"]])
+        if stop == "Join":
+            barrier = p.new("tree.verbs", "Join", child=alias, right=other, name="t", on=p.new("tree.col_expr", "LiteralCol", val=True, _dtype=None, _ftype=None), how="inner", validate="m:m")
+        else:
+            barrier = p.new("tree.verbs", "SubqueryMarker", child=alias, name="t")
+        mid.attrs["child"] = barrier
+        child_tbl, _ = table(mid, ["limit"])
+        new_tbl, _ = table(top, [])
+        before = ExprWorld.children_struct(top)
+        r, _tc = run(new_tbl, child_tbl, None)
+        untouched = ExprWorld.children_struct(top) == before
+        label = f"a subquery is needed and the only alias lies below a {stop}"
+        out.append((label, r == ("raise", "SubqueryError") and untouched,
+                    f"check_subquery ({label}): {r}; documented: SubqueryError - the search for an alias stops at a {stop} (input tree untouched: {untouched})"))  # fmt: skip
+
+    # ---- the right input of a binary verb (join, union): the rebuilt chain replaces `right`, the left input stays
+    for cls_, extra in (("Join", dict(on=p.new("tree.col_expr", "LiteralCol", val=True, _dtype=None, _ftype=None), how="inner", validate="m:m")), ("Union", dict(distinct=False))):
+        left = p.call(venv["StubLeaf"], ["l", ["z"]])
+        leaf, alias, mid, _top = build(True)
+        top = p.new("tree.verbs", cls_, child=left, right=mid, name="l", **extra)
+        child_tbl, _ = table(mid, ["limit"])
+        new_tbl, _ = table(top, [])
+        before = ExprWorld.children_struct(top)
+        r, tcalls = run(new_tbl, child_tbl, None, is_right=True)
+        untouched = ExprWorld.children_struct(top) == before
+        label = f"the right input of a {cls_.lower()} needs a subquery and its alias resolves it"
+        ok = False
+        names = None
+        if r[0] == "value" and isinstance(r[1], tuple) and len(r[1]) == 2 and isinstance(r[1][0], Obj):
+            n0 = r[1][0].attrs.get("_ast")
+            chain, n = [], n0.attrs.get("right") if isinstance(n0, Obj) else None
+            while isinstance(n, Obj) and n.cls.name != "StubLeaf" and len(chain) < 8:
+                chain.append(n)
+                n = n.attrs.get("child")
+            names = [x.cls.name for x in chain]
+            ok = (
+                isinstance(n0, Obj) and n0.cls.name == cls_ and n0 is not top and n0.attrs.get("child") is left and names == ["Mutate", "SubqueryMarker", "Alias"]
+                and chain[2] is alias and chain[0] is not mid and untouched and top.attrs["right"] is mid and len(tcalls) == 1 and r[1][1] is tcalls[0][0]
+            )  # fmt: skip
+        out.append((label, ok,
+                    f"check_subquery ({label}, is_right=True) gives {r[0]} {r[1] if r[0] == 'raise' else ''}; right input of the returned {cls_}: {names} "
+                    f"(documented: a copy of the {cls_} whose `right` is Mutate' >> SubqueryMarker >> the original Alias, the left input unchanged; input tree untouched: {untouched})"))  # fmt: skip
     return out
